@@ -243,6 +243,7 @@ func verifRun(c *mon.Case) *mon.Result {
 		opts = append(opts, MaxExpressions(c.MaxExpr))
 	}
 	dbgFile := ""
+	_ = dbgFile
 {{if not .Optimized}}
 	var st Stats
 	if c.Memo {
